@@ -174,6 +174,9 @@ class DocGen:
             return pad + "/begin A2ML\n" + pad + '  block "IF_DATA" taggedunion if_data { "VERIF" struct { uint; char[20]; }; };\n' + pad + "/end A2ML\n"
         if tag == "IF_DATA":
             self.counter += 1
+            if getattr(self, "ifdata_mix", False) and self.counter % 2 == 0:
+                # balanced, but not what the A2ML definition says: flagged invalid, removed by ifdata_cleanup()
+                return pad + "/begin IF_DATA VERIF \"wrong\" %d\n" % (self.counter % 60000) + pad + "/end IF_DATA\n"
             return pad + "/begin IF_DATA VERIF %d \"ifd\"\n" % (self.counter % 60000) + pad + "/end IF_DATA\n"
         head = [("/begin " if b.is_block else "") + tag]
         subs = []
@@ -216,10 +219,11 @@ class DocGen:
         return out
 
 
-def every_element_document(dsl_text, version=(1, 71), repeat=1, stagger=False):
+def every_element_document(dsl_text, version=(1, 71), repeat=1, stagger=False, ifdata_mix=False):
     enums, blocks = parse_dsl(dsl_text)
     g = DocGen(enums, blocks, version, repeat)
     g.stagger = stagger
+    g.ifdata_mix = ifdata_mix
     root = blocks["A2L_FILE"]
     out = ""
     for f in root.fields:
@@ -393,6 +397,13 @@ def deviation_documents(dsl_text):
                                     make("enum_value_too_new", "EnumRefTooNew", False, version=older[-1], new_enum=(x.ty, val))
                                 if lo in VERSIONS and lo != (1, 71) and (not f.vlow or lo >= f.vlow):
                                     make("valid", "", False, version=lo, new_enum=(x.ty, val))   # enum value exactly at its lower bound
+                            if up:
+                                # enum value with an upper bound: valid exactly at the bound, a deprecation notice one version later
+                                if up in VERSIONS and (not f.vlow or up >= f.vlow):
+                                    make("valid", "", False, version=up, new_enum=(x.ty, val))
+                                newer = [v for v in VERSIONS if v > up]
+                                if newer:
+                                    make("deprecated", "EnumRefDeprecated", False, version=newer[0], new_enum=(x.ty, val))
                         break
         # required sub-element missing
         for f in pb.fields:
@@ -429,8 +440,23 @@ def gated_documents(dsl_text):
         pb = blocks[d["parent"]]
         ref = next(f for f in pb.fields if isinstance(f, Ref) and d["element"] in f.names)
         lo = up = 0
+        kind = d["kind"]
         if d["kind"] == "too_new":
             lo = ref.vlow[0] * 100 + ref.vlow[1]
+        elif d["kind"] == "deprecated" and d["expect"] == "EnumRefDeprecated":
+            b = blocks[d["element"]]
+            val = None
+            for x in b.fields:
+                if isinstance(x, Param) and x.ty in enums and not x.dim:
+                    toks = d["text"].split()
+                    for v, vlo, vup in enums[x.ty]:
+                        if vup and v in toks:
+                            val = (v, vup)
+                    break
+            if not val or ref.vlow or ref.vup:
+                continue
+            up = val[1][0] * 100 + val[1][1]
+            kind = "enum_value_deprecated"
         elif d["kind"] == "deprecated":
             up = ref.vup[0] * 100 + ref.vup[1]
         else:
@@ -450,7 +476,7 @@ def gated_documents(dsl_text):
                 continue        # element itself gated as well: two bounds interact, left to the fixed-version documents
         # ancestors / other values must be valid at every version: regenerate the body at the oldest version
         first, rest = d["text"].split("\n", 1)
-        out.append((rest, lo, up, d["kind"], d["element"], d["parent"]))
+        out.append((rest, lo, up, kind if d["expect"] == "EnumRefDeprecated" else d["kind"], d["element"], d["parent"]))
     return out
 
 
